@@ -13,6 +13,12 @@ CHECKS = {
          "only the direction written by the closing side is judged"),
  "C04": ("fault_enumeration", "§3 C04", "One in-path mutation per run, positions enumerated from the byte geometry that the reference decoder recorded in a fault-free reference pass of the same seed: every segment x field class x offsets x {flip, substitute, insert, delete, truncate} plus whole-segment swap/duplicate/remove/splice; random shapes on top. Oracle: delivered bytes are a prefix (TCP) / the intact stream (UDP); no crash. Exhaustive for the stated positions of the listed shapes (thorough tier), shapes sampled.",
          "determinism (one seed = one execution) makes the reference geometry valid up to the mutation point; only causal splices (source emitted before the target) are generated"),
+ "C05": ("fault_enumeration", "§3 C05", "Attacker actors without a credential beside genuine traffic; enumerated: every prefix and single-bit mutation of a genuine first segment (TCP and UDP), plus random strings, truncations and reference-encoded handshakes under foreign credentials / stolen hints. Oracle over the whole run: zero bytes or datagrams from the server to an attacker address, no Accept, no session, genuine workload intact.",
+         "attackers are identified by source address; copies of genuine traffic are presented only after the server has answered the original (otherwise the copy is the original)"),
+ "C06": ("exploration", "§3 C06", "Replayer actors re-send recorded genuine TCP streams / prefixes / first segments and UDP datagrams from other addresses 0 s - 5 min later, before/after the original ended, concurrently with fresh dials, with the replay caches rebased onto the virtual clock; zero-reply / no-Accept / no-session oracle. Second scenario: ReplayCache operation histories under the virtual clock against an ideal bounded-memory set.",
+         "replays are byte-exact; the cache model mirrors only the documented capacity/interval contract"),
+ "C10": ("exploration", "§3 C10", "A hostile peer with a valid credential emits reference-encoded segments with arbitrary types, session ids (incl. other users' established sessions), sequence/ack/window/length/low-entropy fields on both transports, mixed with the unauthenticated corpus, while another user's sessions run. Oracle: the worker process survives (panic/fatal = violation with the first mieru frame as signature) and the victim's stream oracle holds.",
+         "one OS process per run makes a crash observable and attributable to a seed; hostile servers against real clients are not simulated"),
  "C13": ("exploration", "§3 C13", "Wire-tap invariants evaluated on every datagram of C02/C03-style runs with the independent reference decoder: cumulative ack <= in-order prefix delivered to the acker; retransmissions identical in type/fragment/payload; first transmissions gapless from 0.",
          "refproto (written from docs/protocol.md) is the trusted base; simnet delivery events are ground truth for 'received'"),
  "C14": ("exploration", "§3 C14", "Wire-tap invariants on every datagram/segment of runs sweeping MTU x padding x low-entropy mode x write sizes x fault profiles (retransmissions, acks, control segments): datagram <= sender MTU, documented length limits.",
